@@ -166,6 +166,10 @@ func (p *parser) parseBinaryExpr(left Node) Node {
 	if expType == EMPTY_ARRAY {
 		binaryExp.T = binaryExp.Right.Type() // array concatenation e.g. [] + [1 2]
 	}
+	if left.Type().Fixed || binaryExp.Right.Type().Fixed {
+		// an expression that contains a variable is assignable like a variable
+		binaryExp.T = fixedType(binaryExp.T)
+	}
 	if !p.validateBinaryType(binaryExp) {
 		return nil // previous error: do not hand an ill-typed node to later checks
 	}
